@@ -114,6 +114,13 @@ func (w *world) onAdd(b *blockchain.Block) {
 func newWorld(t *rapid.T) *world {
 	nVal := rapid.IntRange(4, 6).Draw(t, "validators") // finality must be able to advance without the forging validator
 	cfg := node.Config{Genesis: node.EqualGenesis(nVal), BatchSize: nVal + 1}
+	// certificate threshold independent of the precommit threshold (anywhere in the legal range W/3+1 .. W)
+	switch rapid.IntRange(0, 3).Draw(t, "genesisCertThreshold") {
+	case 0:
+		cfg.Genesis.Cert = uint64(nVal)
+	case 1:
+		cfg.Genesis.Cert = uint64(nVal)/3 + 1
+	}
 	maxTx := rapid.SampledFrom([]uint32{120, 300, 700, 15 * 1024}).Draw(t, "maxTransactionsSize")
 	cfg.MaxTxLength = maxTx
 	n, err := node.New(cfg)
@@ -411,13 +418,26 @@ func (w *world) forge(t *rapid.T) bool {
 			if w.forceCertify || rapid.Bool().Draw(t, "certifyWholeRange") {
 				from = cert
 			}
-			for _, ix := range p.Idx {
+			// participation (added after seeded change C15-q: the assembled aggregate was weighed against the precommit instead of the
+			// certificate threshold - visible only when the thresholds differ AND the signers' weight lies between them)
+			part := "all"
+			if !w.forceCertify {
+				part = rapid.SampledFrom([]string{"all", "all", "all-but-one", "all-but-two", "half"}).Draw(t, "participation")
+			}
+			skip := map[string]int{"all": 0, "all-but-one": 1, "all-but-two": 2, "half": len(p.Idx) / 2}[part]
+			if skip >= len(p.Idx) {
+				skip = len(p.Idx) - 1
+			}
+			for _, ix := range p.Idx[skip:] {
 				k := node.Keys()[ix]
 				if err := w.n.Exec.Certify(from, pc, k.Addr, k.BLSPriv); err != nil {
 					w.fail("Certify: %v", err)
 				}
 			}
-			w.hist = append(w.hist, fmt.Sprintf("all validators certify heights (%d, %d]", from, pc))
+			if part != "all" {
+				evid.R.Label("certified-by-a-strict-subset", 1)
+			}
+			w.hist = append(w.hist, fmt.Sprintf("%s validators (%d of %d) certify heights (%d, %d]", part, len(p.Idx)-skip, len(p.Idx), from, pc))
 		}
 	}
 	pooled := w.fillPool(t)
